@@ -298,6 +298,7 @@ func (o *Once) Do(f func()) {
 
 type Cond struct {
 	L     Locker
+	once  sync.Once
 	real  *sync.Cond
 	epoch uint64
 	// logical: tickets
@@ -305,7 +306,13 @@ type Cond struct {
 	release uint64 // tickets < release have been signalled (FIFO wake order)
 }
 
-func NewCond(l Locker) *Cond { return &Cond{L: l, real: sync.NewCond(l)} }
+func NewCond(l Locker) *Cond { return &Cond{L: l} }
+
+// r returns the real condition variable (the zero Cond with L set later is valid, as in sync).
+func (c *Cond) r() *sync.Cond {
+	c.once.Do(func() { c.real = sync.NewCond(c.L) })
+	return c.real
+}
 
 func (c *Cond) sync() {
 	if e := vsched.Epoch(); c.epoch != e {
@@ -315,7 +322,7 @@ func (c *Cond) sync() {
 
 func (c *Cond) Wait() {
 	if !vsched.Active() {
-		c.real.Wait()
+		c.r().Wait()
 		return
 	}
 	if vsched.Aborting() {
@@ -333,7 +340,7 @@ func (c *Cond) Wait() {
 
 func (c *Cond) Signal() {
 	if !vsched.Active() {
-		c.real.Signal()
+		c.r().Signal()
 		return
 	}
 	if vsched.Aborting() {
@@ -348,7 +355,7 @@ func (c *Cond) Signal() {
 
 func (c *Cond) Broadcast() {
 	if !vsched.Active() {
-		c.real.Broadcast()
+		c.r().Broadcast()
 		return
 	}
 	if vsched.Aborting() {
